@@ -226,6 +226,35 @@ def pipeline (n : Nat) : List (Kind × Opt) → Heap → Ref → Option (Heap ×
     | none => none
     | some (H1, r1) => pipeline n rest H1 r1
 
+/-! ## writers (dispatch on the root only)
+
+`oj.Writer.appendJSON` and `sen.Writer.appendSEN` have clauses for the simple types and reach a node
+of package gen only in their `case alt.Simplifier:` clause, which writes `td.Simplify()` (both facts
+are read from the source: `ojWriterViaSimplify`, `senWriterViaSimplify`). `w` stands for whatever the
+writer does with simple data. -/
+
+inductive WriterPkg where
+  | oj | sen
+  deriving DecidableEq, Repr
+
+def WriterPkg.viaSimplify : WriterPkg → Bool
+  | .oj => ojWriterViaSimplify
+  | .sen => senWriterViaSimplify
+
+def writeRoot {α : Type} (p : WriterPkg) (w : T → α) (n : Nat) (H : Heap) (r : Ref) : Option α :=
+  match denote n H r with
+  | none => none
+  | some t =>
+    if t.pure .simple then some (w t)
+    else if p.viaSimplify then
+      match conv .simplify n ⟨false, false⟩ H r with
+      | some (H', r') =>
+        match denote n H' r' with
+        | some t' => some (w t')
+        | none => none
+      | none => none
+    else none   -- a clause of its own for generic data: not modelled
+
 /-! ## which members survive (tree level)
 
 `T.keeps k opt t`: no member of an object anywhere in `t` is left out when `t` is converted by `k`
